@@ -203,7 +203,7 @@ func returnRows(c *Ctx, fn *ssa.Function) []siteRow {
 			for k := range ret.Results {
 				vals = append(vals, retExpr(c, ret, k))
 			}
-			k := funcName(f) + " returns (" + strings.Join(vals, ", ") + ")"
+			k := normRef(funcName(f) + " returns (" + strings.Join(vals, ", ") + ")")
 			if len(k) > 300 {
 				k = k[:300]
 			}
@@ -273,7 +273,7 @@ func effectRows(c *Ctx, fn *ssa.Function) []siteRow {
 	rows := returnRows(c, fn)
 	count := map[string]int{}
 	add := func(kind, what string, i ssa.Instruction, extra ...string) {
-		k := funcName(fn) + " " + kind + " " + what
+		k := normRef(funcName(fn) + " " + kind + " " + what)
 		if len(k) > 260 {
 			k = k[:260]
 		}
